@@ -143,6 +143,7 @@ type FnCtx struct {
 	lastCall   map[string]Val
 	pureObs    []string
 	sliceLen   map[string]string // slice terms whose length is a literal (argument lists built at call sites)
+	intUB      map[string]int    // small static upper bounds of integer terms (lengths of such slices after phi merges)
 	grafts     []string          // objects into which a message/list pointer was stored (deep-freshness of newer clones is void for them)
 }
 
@@ -413,6 +414,20 @@ func (c *FnCtx) runBlocks(fr *Frame, order []*ssa.BasicBlock, rg *region) {
 
 // unrollBound decides whether a loop is executed by unrolling: either the contract asks for a bounded stand-in
 // (`unroll N`), or it is a range loop over a slice whose length is a literal (argument lists built at the call site).
+func (c *FnCtx) sliceLenBound(term string) (int, bool) {
+	if term == nilSlice {
+		return 0, true
+	}
+	if l, ok := c.sliceLen[term]; ok {
+		n, err := strconv.Atoi(l)
+		return n, err == nil
+	}
+	if ub, ok := c.intUB["(s-len "+term+")"]; ok {
+		return ub, true
+	}
+	return 0, false
+}
+
 func (c *FnCtx) unrollBound(fr *Frame, li *loopInfo, ins []edgeIn) (n int, bounded bool, ok bool) {
 	if li.spec != nil && li.spec.Unroll > 0 {
 		return li.spec.Unroll, true, true
@@ -434,6 +449,9 @@ func (c *FnCtx) unrollBound(fr *Frame, li *loopInfo, ins []edgeIn) (n int, bound
 			if v, defd := fr.vals[b.Y]; defd {
 				if k, err := strconv.Atoi(v.E); err == nil && k >= 0 && k <= 12 {
 					return k, false, true
+				}
+				if ub, ok := c.intUB[v.E]; ok && ub <= 12 {
+					return ub, false, true
 				}
 			} else if cst, isC := b.Y.(*ssa.Const); isC {
 				if k, err := strconv.Atoi(c.val(fr, cst).E); err == nil && k >= 0 && k <= 12 {
@@ -586,6 +604,24 @@ func (c *FnCtx) enterBlock(fr *Frame, b *ssa.BasicBlock, ins []edgeIn, unrolling
 		v.T = p.Type()
 		if !first && !isAtom(v.E) {
 			v.E = c.sc.Define(fr.fn.Name()+"."+p.Name(), c.ty.SortOf(p.Type()), v.E)
+		}
+		if _, isSl := p.Type().Underlying().(*types.Slice); isSl && len(ins) > 1 {
+			// all incoming slices have statically known lengths: remember the largest
+			ub, all := 0, true
+			for _, e := range ins {
+				ev := c.val(fr, p.Edges[e.predIdx])
+				l, ok := c.sliceLenBound(ev.E)
+				if !ok {
+					all = false
+					break
+				}
+				if l > ub {
+					ub = l
+				}
+			}
+			if all {
+				c.intUB["(s-len "+v.E+")"] = ub
+			}
 		}
 		fr.vals[p] = v
 	}
